@@ -248,8 +248,109 @@ def short_sig_builds(rng, tier):
     return out
 
 
+# ---------------------------------------------------------------- two signature checks in one locking script
+P_OF = {}          # key hex (with the `u` marker) -> public key bytes; filled from PUBS below
+PUBS = {KEYS[0]: PK1,
+        KEYS[1]: "0339a36013301597daef41fbe593a02cc513d0b55527ec2df1050e2e8ff49c85c2",
+        KEYS[2]: "02f9308a019258c31049344f85f89d5229b531c845836f99b08601f113bce036f9"}
+
+
+def code_at(n, ts):
+    """elements after the last separator that precedes the n-th signature check (same walk as Spec/SpendTwo.code_at)"""
+    start = 0
+    for j, (c, d, raw) in enumerate(ts):
+        if d is None and c in (0xAC, 0xAD, 0xAE, 0xAF):
+            if n == 0:
+                return ts[start:]
+            n -= 1
+        elif d is None and c == 0xAB:
+            start = j + 1
+    return ts[start:]
+
+
+def two_check_lock(ka, kb, seps, verify_tail=False):
+    """<key_A> OP_CHECKSIGVERIFY <key_B> OP_CHECKSIG (or ..VERIFY OP_1) with separators before the listed element positions"""
+    els = [push(bytes.fromhex(PUBS[ka])), b"\xad", push(bytes.fromhex(PUBS[kb]))] + ([b"\xad", b"\x51"] if verify_tail else [b"\xac"])
+    out = b""
+    for j, e in enumerate(els):
+        out += b"\xab" * seps.count(j) + e
+    return out + b"\xab" * sum(1 for p in seps if p >= len(els))
+
+
+def two_check_build(ka, kb, fa, fb, seps, verify_tail=False, sub_a=None, sub_b=None, tx=None):
+    lock = two_check_lock(ka, kb, seps, verify_tail)
+    ts = toks(lock)
+    sa = sub_a if sub_a is not None else join(code_at(0, ts))
+    sb = sub_b if sub_b is not None else join(code_at(1, ts))
+    # the unlocking script is  <sig_B> <sig_A>: signer B first
+    return ("spend.build", ["raw", tx or lz_tx(11), "0", "5000", ka + "," + kb, "1.%d,0.%d" % (fb, fa),
+                            "%s.%s.%s" % (lock.hex(), sb.hex(), sa.hex()), "0"])
+
+
+def two_check_builds(rng, tier):
+    out = []
+    A, B = KEYS[1], KEYS[2]
+    pairs = [(0x41, 0x41), (0x01, 0x01), (0x41, 0x01), (0x01, 0x41)]
+    sepsets = [[], [0], [1], [2], [3], [4], [2, 4], [0, 2, 4]]
+    n = 0
+    for seps in sepsets:
+        for (fa, fb) in (pairs if tier == "thorough" else [pairs[n % 4], pairs[(n + 1) % 4]]):
+            out.append(two_check_build(A, B, fa, fb, seps, verify_tail=(n % 5 == 4)))
+            n += 1
+    out.append(two_check_build(A, A, 0xC3, 0x83, [2]))                 # the same key for both checks
+    if tier == "thorough":
+        for fa in FLAGS:
+            out.append(two_check_build(A, B, fa, rng.choice(FLAGS), [rng.randrange(5), rng.randrange(5)]))
+    # wrong subscripts: the separators behind the check erased by the signer (right for legacy flags only), and the whole script
+    lock = two_check_lock(A, B, [2, 4])
+    erased = join([t for t in code_at(0, toks(lock)) if not (t[1] is None and t[0] == 0xAB)])
+    for fa in (0x41, 0x01):
+        out.append(two_check_build(A, B, fa, 0x41, [2, 4], sub_a=erased))
+        out.append(two_check_build(A, B, fa, fa, [2, 4], sub_b=lock))
+    return out
+
+
+# ---------------------------------------------------------------- deterministic extras (audit list)
+def audit_builds(rng, tier):
+    out = []
+    K = KEYS
+    tx22 = lz_tx(3)
+    # keys of both compression forms inside one multisig; the same key twice (the same signature then matches twice)
+    out.append(("spend.build", ["ms", tx22, "0", "5000", "u%s,%s,u%s" % (K[0], K[1], K[2]), "0.65,2.1", "_", "0"]))
+    out.append(("spend.build", ["ms", tx22, "1", "5000", "%s,u%s,%s" % (K[0], K[1], K[2]), "1.195,2.131", "2", "1"]))
+    out.append(("spend.build", ["ms", tx22, "0", "5000", "%s,%s" % (K[1], K[1]), "0.65,1.65", "_", "0"]))
+    out.append(("spend.build", ["ms", tx22, "0", "5000", "%s,u%s" % (K[1], K[1]), "0.1,1.1", "_", "0"]))
+    out.append(("spend.build", ["ms", tx22, "0", "5000", "%s,%s,%s" % (K[0], K[1], K[2]), "0.65,1.66,2.67", "_", "0"]))   # m = n = 3
+    # the two enum values that are not standard flag bytes (outside the property; no panic, model = library)
+    for kind, keys, sg in [("p2pk", K[1], "0.%d"), ("p2pkh", K[1], "0.%d"), ("ms", K[1] + "," + K[2], "0.%d,1.65")]:
+        for f in (64, 128):
+            out.append(("spend.build", [kind, tx22, "0", "5000", keys, sg % f, "_", "0"]))
+    # declared values at the ends of u64
+    for v in (0, 2 ** 63, 2 ** 64 - 1, 2 ** 32, 255, 256):
+        out.append(("spend.build", ["p2pkh", tx22, "0", str(v), K[1], "0.%d" % (0x41 if v % 2 == 0 else 0xC3), "_", "0"]))
+    # SINGLE at an input index without an output: Transaction::sign refuses (ERR expected, compared with the model)
+    tx21 = parse_tx(bytes.fromhex(tx22)); tx21["outs"].pop(); tx21 = ser_tx(tx21).hex()
+    for f in (3, 0x43, 0x83, 0xC3, 1, 0x41):
+        out.append(("spend.build", ["p2pk", tx21, "1", "5000", K[1], "0.%d" % f, "_", "0"]))
+    # counts pushed as data / encoded non-minimally, with the signature made over that very script
+    P1, P2 = "21" + PUBS[K[1]], "21" + PUBS[K[2]]
+    for lock in ["0101" + P1 + "0101ae", "020100" + P1 + "020100ae", "0101" + P1 + P2 + "020200ae", "0401000000" + P1 + "51ae"]:
+        for f in (0x41, 0x01):
+            out.append(("spend.build", ["rawd", tx22, "0", "5000", K[1], "0.%d" % f, lock + "." + lock, "0"]))
+    # a script code longer than 252 bytes (compact size fd..): a dropped 300-byte push in front of P2PK
+    big = "4d2c01" + bytes(rng.randrange(256) for _ in range(300)).hex() + "75" + P1 + "ac"
+    for f in (0x41, 0x01):
+        out.append(("spend.build", ["raw", tx22, "0", "5000", K[1], "0.%d" % f, big + "." + big, "0"]))
+    return out
+
+
+ALWAYS = set()       # builds that are always in the compared stream
+
+
 def presample(rng, tier):
-    cases = short_sig_builds(rng, tier)
+    cases = short_sig_builds(rng, tier) + two_check_builds(rng, tier) + audit_builds(rng, tier)
+    ALWAYS.clear()
+    ALWAYS.update(tuple(c[1]) for c in cases)
     reps = 1 if tier == "quick" else 6
     for _ in range(reps):
         # every flag once per family
